@@ -406,6 +406,7 @@ func execFault(cs hx.Sx) hx.Sx {
 	if sys < 0 || sys >= len(sysNames) {
 		return badObs("sys")
 	}
+	missing := 0
 	for attempt := 0; attempt < 15; attempt++ { // under load the helper's threads are scheduled differently from the calibration run: retry
 		d := scratch()
 		cur := filepath.Join(d, "offsets.yaml")
@@ -442,8 +443,13 @@ func execFault(cs hx.Sx) hx.Sx {
 			}
 			if rawIdx < 0 {
 				os.RemoveAll(d)
+				// under load a calibration log may come out incomplete: believe "no such call" only the third time in a row
+				if missing++; missing < 3 {
+					continue
+				}
 				return hx.L(hx.B(oldBytes), hx.L(), hx.B(oldBytes), hx.L(hx.I(9))) // the real code makes no such call
 			}
+			missing = 0
 			when := 0
 			for i := 0; i <= rawIdx; i++ {
 				if calls[i].name == calls[rawIdx].name {
